@@ -88,6 +88,54 @@ def gen_wires(rng, n):
     return rng.sample(range(n), m)
 
 
+def expand_spec(spec):
+    """documented meaning of a shot specification: an int is one bin, a (shots, copies) pair is `copies` bins of `shots`"""
+    if isinstance(spec, int):
+        return [spec]
+    flat = []
+    for e in spec:
+        flat += [e] if isinstance(e, int) else [e[0]] * e[1]
+    return flat
+
+
+def rle(flat):
+    """documented shot_vector: neighbouring bins of equal size are written as one (shots, copies) entry"""
+    out = []
+    for s in flat:
+        if out and out[-1][0] == s:
+            out[-1][1] += 1
+        else:
+            out.append([s, 1])
+    return out
+
+
+def gen_spec(rng, values):
+    """shot specification mixing ints and (shots, copies) pairs; equal neighbouring shot values are likely"""
+    base = rng.choice(values)
+    spec = []
+    for _ in range(rng.randint(1, 3)):
+        s = base if rng.random() < 0.6 else rng.choice(values)
+        spec.append([s, rng.randint(1, 3)] if rng.random() < 0.6 else s)
+    if not any(isinstance(e, list) for e in spec):
+        spec[-1] = [spec[-1], 2]
+    return spec
+
+
+def gen_shots_case(rng):
+    """operands of a sum of Shots objects: each an int or a sequence of ints / (shots, copies) pairs"""
+    vals = [rng.randint(1, 60) for _ in range(2)]
+    ops = []
+    for _ in range(rng.randint(1, 3)):
+        r = rng.random()
+        if r < 0.2:
+            ops.append(rng.choice(vals))
+        elif r < 0.4:
+            ops.append([rng.choice(vals) for _ in range(rng.randint(1, 4))])
+        else:
+            ops.append(gen_spec(rng, vals))
+    return {"ops": ops}
+
+
 def gen_det(rng, jax=False):
     """jax=True: JAX path (eager XLA compiles per shape are slow, so shapes come from a narrow set)"""
     n = rng.choice([2, 3]) if jax else rng.choice([1, 2, 2, 3, 3, 3, 4])
@@ -120,6 +168,9 @@ def gen_det(rng, jax=False):
         else:
             base = rng.randint(1, 7)
             sv = [base if rng.random() < 0.5 else rng.randint(1, 9) for _ in range(rng.randint(2, 4))]
+            if rng.random() < 0.25:      # specification with (shots, copies) pairs; sv = its documented expansion
+                c["svspec"] = gen_spec(rng, list(range(1, 8)))
+                sv = expand_spec(c["svspec"])
         c["sv"] = sv
         mps = []
         if rng.random() < 0.55:
@@ -156,6 +207,43 @@ CORPUS = [
      "states": [[[0, 0], [1, 0], [-1, 0], [0, 0], [1, 0], [0, 0], [0, 0], [0, 1]]],
      "mps": [{"t": "sample_obs", "ws": [2, 0]}, {"t": "counts_obs", "ws": [1], "all": True}],
      "us": [[0, 1], [1, 4], [1, 2], [3, 4], [99, 128], [3, 16]]},
+    # shot specification with (shots, copies) pairs following an equal shot value (shape of the Shots docstring example)
+    {"n": 2, "k": 1, "backend": "numpy", "kind": "measure", "svspec": [2, 3, [3, 2], [1, 2]], "sv": [2, 3, 3, 3, 1, 1], "extra": 0,
+     "states": [[[1, 0], [0, 1], [-1, 0], [0, -1]]],
+     "mps": [{"t": "sample", "ws": [1, 0]}, {"t": "counts", "ws": [], "all": True}],
+     "us": [[0, 1], [1, 4], [1, 2], [3, 4], [99, 128], [3, 16], [5, 8], [7, 8], [1, 8], [3, 8], [1, 3], [2, 3], [9, 16]]},
+    {"n": 2, "k": 1, "backend": "numpyB", "kind": "measure", "svspec": [[2, 2], [2, 3]], "sv": [2, 2, 2, 2, 2], "extra": 0,
+     "states": [[[1, 0], [0, 1], [-1, 0], [0, -1]]],
+     "mps": [{"t": "sample_obs", "ws": [0, 1]}, {"t": "counts_obs", "ws": [0], "all": False}],
+     "us": [[0, 1], [1, 4], [1, 2], [3, 4], [99, 128], [3, 16], [5, 8], [7, 8], [1, 8], [3, 8]]},
+]
+
+# QNode cases that run first: the example of the Shots docstring, (10, 100, (100, 3), (200, 4)) = 10 x 1, 100 x 4, 200 x 4
+VALID_CORPUS = [
+    {"n": 2, "dev": dev, "seed": 1234, "gates": [["RY", 0.9, 0], ["CNOT", 0, 1]],
+     "svspec": spec, "sv": expand_spec(spec),
+     "mps": [{"t": "sample", "ws": [0, 1]}, {"t": "counts", "ws": [0, 1], "all": False}]}
+    for dev, spec in (("numpy", [10, 100, [100, 3], [200, 4]]), ("mixed", [[7, 2], [7, 3], 5]), ("jax", [4, [4, 2]]))
+]
+
+# parameter broadcasting: RY(x) CNOT with x = [0, pi/3, pi] (P(11) = 0, 1/4, 1), every batch entry is judged on its own
+VALID_CORPUS += [
+    {"n": 2, "dev": dev, "seed": 4321, "gates": [["CNOT", 0, 1]], "sv": sv,
+     "batch": {"wire": 0, "xs": [0.0, 1.0471975511965976, 3.141592653589793]},
+     "mps": [{"t": "counts", "ws": [0, 1], "all": False}, {"t": "counts_obs", "obs": [["Z", 0], ["Z", 1]], "all": True},
+             {"t": "sample", "ws": [0, 1]}, {"t": "counts", "ws": [1], "all": True}]}
+    for dev, sv in (("numpy", [400]), ("numpy", [30, 50]), ("mixed", [200]), ("jax", [64]))
+]
+
+# sums of Shots objects (ints, int sequences, (shots, copies) pairs; equal shot values meeting at the seam)
+SHOTS_CORPUS = [
+    {"ops": [[10, 100, [100, 3], [200, 4]]]},
+    {"ops": [[[50, 2]], [[50, 2]]]},
+    {"ops": [[[100, 2]]]},
+    {"ops": [[100, 2]]},
+    {"ops": [100, [[10, 2]]]},
+    {"ops": [[7, [7, 3]], [[7, 2], 3], 3]},
+    {"ops": [[1, 1, 2, 3]]},
 ]
 
 GATES1 = ["RX", "RY", "RZ", "H", "X", "S", "T"]
@@ -187,6 +275,13 @@ def gen_valid(rng, i):
     c = {"n": n, "dev": ["numpy", "jax", "mixed", "numpy", "mixed", "numpy", "mixed"][i % 7], "seed": rng.randrange(10 ** 6),
          "gates": gen_circuit(rng, n, clifford=rng.random() < 0.4)}
     c["sv"] = [rng.choice([1, 7, 50, 200])] if rng.random() < 0.4 else [rng.choice([1, 5, 10, 33]) for _ in range(rng.randint(2, 4))]
+    if rng.random() < 0.2:
+        c["svspec"] = gen_spec(rng, [1, 5, 10, 33])
+        c["sv"] = expand_spec(c["svspec"])
+    if rng.random() < 0.25:      # QNode called with a parameter batch: RY(xs) on `wire` ahead of the gates
+        c["batch"] = {"wire": rng.randrange(n),
+                      "xs": [rng.choice([0.0, 3.141592653589793, 1.5707963267948966, round(rng.uniform(0, 6.28), 6)])
+                             for _ in range(rng.randint(2, 4))]}
     mps = []
     for _ in range(rng.randint(1, 4)):
         t = rng.choice(["sample", "counts", "probs", "sample_obs", "counts_obs", "expval", "var"])
@@ -381,6 +476,12 @@ def direct_valid(c, o):
     bad = []
     if "crash" in o:
         return ["execution raised " + o["crash"]]
+    if "batches" in o:      # broadcast call: entry b must be a valid result for the circuit with the scalar parameter xs[b]
+        if len(o["batches"]) != len(c["batch"]["xs"]):
+            return [f"{len(o['batches'])} batch entries for {len(c['batch']['xs'])} parameters"]
+        for b, ob in enumerate(o["batches"]):
+            bad += [f"batch entry {b} (x={c['batch']['xs'][b]}): {msg}" for msg in direct_valid(c, ob)]
+        return bad
     if "struct" in o:
         return ["malformed result: " + o["struct"]]
     sv, n = c["sv"], c["n"]
@@ -441,6 +542,24 @@ def direct_valid(c, o):
     return bad
 
 
+def direct_shots(c, o):
+    """Shots objects built from the operands and their sum against the documented expansion"""
+    if "crash" in o:
+        return ["Shots construction/addition raised " + o["crash"]]
+    bad = []
+    flats = [expand_spec(op) for op in c["ops"]]
+    for name, flat, r in [(f"Shots({op})", f, r) for op, f, r in zip(c["ops"], flats, o["each"])] + \
+                         [("sum of " + " + ".join(f"Shots({op})" for op in c["ops"]), sum(flats, []), o["sum"])]:
+        lo, bins = 0, []
+        for s_ in flat:
+            bins.append([lo, lo + s_]); lo += s_
+        exp = {"iter": flat, "total": sum(flat), "vector": rle(flat), "copies": len(flat), "bins": bins, "part": len(flat) > 1}
+        for k, v in exp.items():
+            if r[k] != v:
+                bad.append(f"{name}: {k} = {r[k]}, documented expansion gives {v}")
+    return bad
+
+
 def chi_square(hist, p, min_expected=50.0):
     """returns (p_value, stat, df, impossible) with cells pooled until every expected count >= min_expected"""
     from scipy.stats import chi2
@@ -482,8 +601,11 @@ def run(ctx):
     det = [dict(c) for c in CORPUS]
     while len(det) < n_det:
         det.append(gen_det(rng, jax=len(det) < len(CORPUS) + n_jax))
-    valid = [gen_valid(rng, i) for i in range(n_valid)]
+    valid = [dict(c) for c in VALID_CORPUS] + [gen_valid(rng, i) for i in range(n_valid)]
     stat = [gen_stat(rng, i, nshots) for i in range(n_stat)]
+    shots_cases = [dict(c) for c in SHOTS_CORPUS]
+    while len(shots_cases) < (60 if quick else 600):
+        shots_cases.append(gen_shots_case(rng))
     if getattr(ctx, "replay", None):
         rp = ctx.replay.get("replay", {})
         if rp.get("stream") == "det":
@@ -492,12 +614,25 @@ def run(ctx):
             valid = [rp["case"]] + valid[:5]
         elif rp.get("stream") == "stat":
             stat = [rp["case"]] + stat[:2]
-    obs = ctx.run_impl("c29_impl.py", {"det": det, "valid": valid, "stat": stat}, timeout=3000)
+        elif rp.get("stream") == "shots":
+            shots_cases = [rp["case"]] + shots_cases[:5]
+    obs = ctx.run_impl("c29_impl.py", {"det": det, "valid": valid, "stat": stat, "shots": shots_cases}, timeout=3000)
+
+    # ---------------- shot specifications: Shots(spec) and sums of Shots against the documented expansion
+    shist = {"cases": len(shots_cases), "with_pairs": 0, "sums": 0, "equal_value_merges": 0}
+    for c, o in zip(shots_cases, obs["shots"]):
+        shist["with_pairs"] += any(isinstance(op, list) and any(isinstance(e, list) for e in op) for op in c["ops"])
+        shist["sums"] += len(c["ops"]) > 1
+        flat_all = sum((expand_spec(op) for op in c["ops"]), [])
+        shist["equal_value_merges"] += len(rle(flat_all)) < len(flat_all)
+        for msg in direct_shots(c, o):
+            ctx.violation("shots:" + json.dumps(c, sort_keys=True), {"stream": "shots", "case": c, "observed": o, "complaint": msg},
+                          what=msg)
 
     # ---------------- deterministic tie
     terms, idx_map = [], []
     hist = {"state": 0, "measure": 0, "numpy": 0, "numpyB": 0, "jax": 0, "errors": 0, "batched": 0,
-            "partitioned": 0, "permuted_wires": 0, "boundary_u": 0, "zero_prob_entries": 0, "obs_measurements": 0}
+            "partitioned": 0, "copies_pairs": 0, "permuted_wires": 0, "boundary_u": 0, "zero_prob_entries": 0, "obs_measurements": 0}
     nontrivial = set()
     for i, (c, o) in enumerate(zip(det, obs["det"])):
         key = json.dumps(c, sort_keys=True)
@@ -522,6 +657,7 @@ def run(ctx):
             ws = c.get("wires") if c["kind"] == "state" else None
             hist["batched"] += bool(c.get("batched"))
             hist["partitioned"] += bool(c["kind"] == "measure" and len(c["sv"]) > 1)
+            hist["copies_pairs"] += "svspec" in c
             hist["permuted_wires"] += bool(ws and ws != sorted(ws)) + bool(
                 c["kind"] == "measure" and any(m["ws"] != sorted(m["ws"]) for m in c["mps"]))
             hist["obs_measurements"] += bool(c["kind"] == "measure" and any("obs" in m["t"] for m in c["mps"]))
@@ -541,9 +677,11 @@ def run(ctx):
                       what="sample_state / measure_with_samples differs from the proved model on the same uniform variates")
 
     # ---------------- validity with the real generators
-    vhist = {"numpy": 0, "jax": 0, "mixed": 0, "shot_vectors": 0, "measurements": 0}
+    vhist = {"numpy": 0, "jax": 0, "mixed": 0, "shot_vectors": 0, "copies_pairs": 0, "broadcast": 0, "measurements": 0}
     for c, o in zip(valid, obs["valid"]):
         vhist[c["dev"]] += 1
+        vhist["copies_pairs"] += "svspec" in c
+        vhist["broadcast"] += "batch" in c
         vhist["shot_vectors"] += len(c["sv"]) > 1
         vhist["measurements"] += len(c["mps"])
         for msg in direct_valid(c, o):
@@ -598,10 +736,10 @@ def run(ctx):
                               what=f"eigenvalue samples of a two-wire observable with distinct eigenvalues ({c['dev']}) reject the exact distribution (eigenvalue looked up at the wrong basis index?) p={pv:.2e}")
 
     ctx.coverage.update({
-        "evaluations": len(det) + len(valid) + len(stat),
+        "evaluations": len(det) + len(valid) + len(stat) + len(shots_cases),
         "distinct_nontrivial": len(nontrivial),
-        "rule": "det: dyadic random states (n<=4, Gaussian-integer amplitudes/2^k, zero entries allowed), wire subsets in random order, batches, shot vectors with repeats, wire sample/counts or Z-word observables, uniforms incl. exact cdf boundaries, 0 and 1-2^-53; ~5% unnormalised and ~1.5% unknown-wire cases (error path); non-trivial = state with >1 non-zero outcome. valid/stat: random circuits through QNodes on default.qubit (numpy seed, JAX PRNGKey) and default.mixed",
-        "input_distribution": {"det": hist, "valid": vhist,
+        "rule": "det: dyadic random states (n<=4, Gaussian-integer amplitudes/2^k, zero entries allowed), wire subsets in random order, batches, shot vectors with repeats (ints, and ~9% specifications with (shots, copies) pairs next to equal shot values), wire sample/counts or Z-word observables, uniforms incl. exact cdf boundaries, 0 and 1-2^-53; ~5% unnormalised and ~1.5% unknown-wire cases (error path); non-trivial = state with >1 non-zero outcome. valid/stat: random circuits through QNodes on default.qubit (numpy seed, JAX PRNGKey) and default.mixed, ~20% shot specifications with (shots, copies) pairs, ~25% called with a broadcast parameter batch (each entry judged against the scalar-parameter circuit); shots: Shots(spec) and sums of 1-3 Shots objects (iteration, total, shot_vector, copies, bins) against the expansion documented in the Shots docstring",
+        "input_distribution": {"det": hist, "valid": vhist, "shots": shist,
                                "stat": {"cases": len(stat), "shots_per_case": nshots, "chi_square_tests": tests,
                                         "smallest_p_value": min_p, "alarm_threshold": ALPHA}},
     })
